@@ -58,7 +58,10 @@ fn alphabet(plan: &str, v: &str, _t: Tier) -> Alphabet {
     if v.starts_with("imm") {
         return Alphabet { sizes: vec![48], sems: vec![Sem::Default, Sem::Immortal], gc_kinds: vec![false, true], bursts: vec![burst], refused_allocs: false, align_bursts: false, eph_chains: vec![], two_mutators: false, pins: false, cross_writes: false, fields: if v == "immnw" { 0 } else { 1 } };
     }
-    Alphabet { sizes: vec![40, 264, 81920], sems: vec![Sem::Default], gc_kinds: vec![false, true], bursts: vec![burst], refused_allocs: false, align_bursts: false, eph_chains: vec![], two_mutators: false, pins: false, cross_writes: false, fields: 1 }
+    // 64-byte objects, one kept per 256-byte line: blocks that stay completely marked although
+    // three quarters of their objects die
+    let dense = if plan == "PageProtect" || plan == "NoGC" { (64, 24, 4) } else { (64, 1100, 4) };
+    Alphabet { sizes: vec![40, 264, 81920], sems: vec![Sem::Default], gc_kinds: vec![false, true], bursts: vec![burst, dense], refused_allocs: false, align_bursts: false, eph_chains: vec![], two_mutators: false, pins: false, cross_writes: false, fields: 1 }
 }
 
 fn depth(plan: &str, v: &str, t: Tier) -> usize {
